@@ -1,135 +1,6 @@
 /-
   C11 — Header accessors and typed getters decode the specified fields.
+  `C11Parts`: model-level theorems; `Layout`: the source-derived layouts / IDs / accessor fields of the header-tag structs.
 -/
-import Mb2.HTags
-import Mb2.Spec
-import Mb2.Lemmas.Tags
-import Mb2.Props.C03
-import Mb2.Props.C10
-import Mb2.Props.C15
-namespace Mb2.C11
-open Mb2
-
-/-- specification offsets of the header tags (Multiboot2 specification §3.1.x): (name, offset, width) by type number -/
-def specFields : Nat → List (String × Nat × Nat)
-  | 2 => [("header_addr", 8, 4), ("load_addr", 12, 4), ("load_end_addr", 16, 4), ("bss_end_addr", 20, 4)]
-  | 3 => [("entry_addr", 8, 4)]
-  | 4 => [("console_flags", 8, 4)]
-  | 5 => [("width", 8, 4), ("height", 12, 4), ("depth", 16, 4)]
-  | 8 => [("entry_addr", 8, 4)]
-  | 9 => [("entry_addr", 8, 4)]
-  | 10 => [("min_addr", 8, 4), ("max_addr", 12, 4), ("align", 16, 4), ("preference", 20, 4)]
-  | _ => []
-
-theorem layout_eq_spec : ∀ k : HKind, k.fields = specFields k.typ := by
-  intro k; cases k <;> rfl
-
-theorem fields_inside : ∀ k : HKind, ∀ f ∈ k.fields, f.2.1 + f.2.2 ≤ k.desc.fixed ∧ (f.2.2 = 1 ∨ f.2.2 = 2 ∨ f.2.2 = 4 ∨ f.2.2 = 8) := by
-  intro k; cases k <;> simp [HKind.fields, HKind.desc, sizedDesc, infoReqDesc]
-
-/-- for a valid header the four accessors return the stored magic, architecture, length and checksum -/
-theorem header_accessors (p : Profile) (mem : Bytes) (hl : HLoaded)
-    (hmem : mem.length ≥ 16 ∧ mem.length ≥ le32 mem 8) (h : hload p false mem = .ok (.ok hl)) :
-    hl.magic = le32 mem 0 ∧ hl.arch = le32 mem 4 ∧ hl.length = le32 mem 8 ∧ hl.checksum = le32 mem 12 ∧
-    hl.magic = HMAGIC ∧ 16 ≤ hl.length ∧ hl.length % 8 = 0 := by
-  rw [C10.hload_eq p mem hmem] at h
-  simp only at h
-  by_cases c1 : le32 mem 8 < 16
-  · rw [if_pos c1] at h; simp at h
-  · rw [if_neg c1] at h
-    by_cases c2 : le32 mem 8 % 8 ≠ 0
-    · rw [if_pos c2] at h; simp at h
-    · rw [if_neg c2] at h
-      by_cases c3 : le32 mem 0 ≠ HMAGIC
-      · rw [if_pos c3] at h; simp at h
-      · rw [if_neg c3] at h
-        by_cases c4 : le32 mem 4 ≠ 0 ∧ le32 mem 4 ≠ 4
-        · rw [if_pos c4] at h; cases h
-        · rw [if_neg c4] at h
-          by_cases c5 : calcChecksum (le32 mem 0) (le32 mem 4) (le32 mem 8) ≠ le32 mem 12
-          · rw [if_pos c5] at h; simp at h
-          · rw [if_neg c5] at h
-            injection h with h; injection h with h
-            subst h
-            refine ⟨rfl, rfl, rfl, rfl, ?_, ?_, ?_⟩
-            · simpa using c3
-            · simp only; omega
-            · simp only; omega
-
-/-- the header-tag iterator reproduces the specification walk over the tag area (from offset 16 to the declared length) -/
-theorem tag_iter_is_spec_walk (p : Profile) (area : Bytes) (hb : area.length % 8 = 0) (hlen : area.length < 2^62) :
-    tagsOf p .ht area = Spec.tagsOf .ht area :=
-  C03.tags_eq_spec p .ht (Or.inr (Or.inl rfl)) area hb hlen
-
-/-- each typed getter returns the FIRST tag of its type in walk order and nothing when the walk has none -/
-theorem hgetTag_first (p : Profile) (area : Bytes) (k : HKind) :
-    (∀ v, hgetTag p area k = .ok (some v) →
-        ∃ pre it post, (tagsOf p .ht area).1 = pre ++ it :: post ∧ it.typ = k.typ ∧ it.off = v.off ∧ it.size = v.size ∧
-          (∀ x ∈ pre, x.typ ≠ k.typ) ∧ castTo p .ht k.desc it.size it.pl = .ok (v.sov, v.n)) ∧
-    (hgetTag p area k = .ok none → (tagsOf p .ht area).2 = .done ∧ ∀ x ∈ (tagsOf p .ht area).1, x.typ ≠ k.typ) := by
-  unfold hgetTag
-  simp only
-  cases hf : (tagsOf p .ht area).1.find? (fun it => it.typ == k.typ) with
-  | none =>
-    have hn := List.find?_eq_none.mp hf
-    refine ⟨fun v h => ?_, fun h => ?_⟩
-    · simp only at h; split at h <;> simp at h
-    · simp only at h
-      refine ⟨?_, fun x hx => by simpa using hn x hx⟩
-      split at h <;> first | assumption | simp at h
-  | some it =>
-    obtain ⟨hp, pre, post, hl, hpre⟩ := List.find?_eq_some_iff_append.mp hf
-    refine ⟨fun v h => ?_, fun h => ?_⟩
-    · simp only at h
-      cases hc : castTo p .ht k.desc it.size it.pl with
-      | ok r =>
-        rw [hc] at h
-        obtain ⟨sov, n⟩ := r
-        simp only at h
-        injection h with h; injection h with h
-        subst h
-        exact ⟨pre, it, post, hl, by simpa using hp, rfl, rfl, fun x hx => by simpa using hpre x hx, hc⟩
-      | panic => rw [hc] at h; cases h
-      | oob => rw [hc] at h; cases h
-      | ub => rw [hc] at h; cases h
-    · simp only at h
-      split at h <;> simp at h
-
-/-- every field accessor of every header-tag kind returns the little-endian value at the specified offset -/
-theorem field_decodes (area : Bytes) (k : HKind) (v : View) (hfit : v.off + v.sov ≤ area.length)
-    (hsov : k.desc.fixed ≤ v.sov) :
-    ∀ f ∈ specFields k.typ, rdW (v.bytes area) f.2.1 f.2.2 = .ok (leW area (v.off + f.2.1) f.2.2) := by
-  intro f hf
-  rw [← layout_eq_spec k] at hf
-  have := fields_inside k f hf
-  exact rdW_slice area v.off v.sov f.2.1 f.2.2 this.2 (by omega) hfit
-
-/-- the information-request list has exactly `(size − 8)/4` words; a size that leaves a remainder is a controlled panic -/
-theorem info_request_count (p : Profile) (size : Nat) (hs : 8 ≤ size) :
-    castTo p .ht infoReqDesc size (size - 8) =
-      (if (size - 8) % 4 ≠ 0 then .panic else .ok (roundUp8 size, (size - 8) / 4)) := by
-  unfold castTo
-  rw [if_neg (by simp [infoReqDesc, HK.hsize])]
-  have hd : infoReqDesc.dstLen p size = (if (size - 8) % 4 ≠ 0 then .panic else .ok ((size - 8) / 4)) := by
-    simp only [infoReqDesc]
-    rw [usub_ok p _ _ _ hs]
-    rfl
-  rw [hd]
-  by_cases c : (size - 8) % 4 ≠ 0
-  · rw [if_pos c, if_pos c]; rfl
-  · rw [if_neg c, if_neg c]
-    simp only [Res.bind_ok]
-    have hm : (size - 8) % 4 = 0 := by omega
-    have e : (size - 8) / 4 * 4 = size - 8 := Nat.div_mul_cancel (Nat.dvd_of_mod_eq_zero hm)
-    have hsov : infoReqDesc.sizeOfVal ((size - 8) / 4) = roundUp8 size := by
-      simp only [infoReqDesc, TyDesc.sizeOfVal, roundUp, roundUp8, e]
-      have e2 : 8 + (size - 8) + 8 - 1 = size + 7 := by omega
-      rw [e2]
-    have hdyn : dynSizeOfVal .ht (size - 8) = roundUp8 size := by
-      unfold dynSizeOfVal; simp only [HK.hsize]; congr 1; omega
-    rw [hsov, hdyn, if_neg (by simp)]
-
-/-! Non-vacuity -/
-example : hgetTag .dev ([3,0,1,0, 12,0,0,0, 0x78,0x56,0x34,0x12, 0,0,0,0,  0,0,0,0, 8,0,0,0]) .entry = .ok (some ⟨0, 12, 16, 0⟩) := by decide
-
-end Mb2.C11
+import Mb2.Props.C11Parts
+import Mb2.Props.Layout
